@@ -100,6 +100,18 @@ def build_corpus(res, rng, b, conc, scratch):
     lines = stored_corpus()
     n_stored = len(lines)
     lines += ['X ' + d.hex() for d in xml] + ['W ' + d.hex() for d in wb]
+    # grammar-directed WBXML over every language's tables: the token kinds the project's XML samples never
+    # produce (ENTITY, extensions, PI, literals, string-table references, opaque typed content)
+    try:
+        import wbgen
+        tg = wbgen.TableGen(common.dump_only(b), rng)
+        n_gen = 150 if res.tier == 'quick' else 1500
+        gen = [tg.doc(with_pubid=True)[1] for _ in range(n_gen)]
+        ent = bytes([3, 4, 106, 0, 0x7F]) + b''.join(b'\x02' + wbgen.mb(c) for c in (0x41, 0xE9, 0x20AC, 0x1D11E, 0x41, 0x7FF, 0x800)) * 40 + b'\x01'
+        lines += ['W ' + d.hex() for d in gen] + ['W ' + ent.hex()] * 4
+    except Exception as e:      # the generator needs the table dump; without it the samples above remain
+        n_gen = 0
+        res.coverage['grammar_directed_inputs_error'] = str(e)[:200]
     lines += ['x ' + mutate(rng, rng.choice(xml)).hex() for _ in range(n_xmut)]     # lower case: malformed stream
     lines += ['w ' + mutate(rng, rng.choice(wb)).hex() for _ in range(n_wmut)]
     # screen: drop inputs on which the library crashes or hangs ALONE (other properties' business)
@@ -123,7 +135,7 @@ def build_corpus(res, rng, b, conc, scratch):
         start = bad
     else:
         raise common.BuildError('conc screen keeps crashing')
-    res.coverage['inputs'] = {'stored': n_stored, 'xml_valid': len(xml), 'wbxml_valid': len(wb), 'xml_mutated': n_xmut,
+    res.coverage['inputs'] = {'stored': n_stored, 'xml_valid': len(xml), 'wbxml_valid': len(wb), 'wbxml_grammar_directed': n_gen, 'xml_mutated': n_xmut,
                               'wbxml_mutated': n_wmut, 'screened_out_sequential_crash_or_hang': len(dropped),
                               'total': len(cur)}
     if dropped:
